@@ -44,7 +44,7 @@ func runC04() *RunResult {
 			if chance(60) {
 				s := rn(ns)
 				sp := w.shared[s]
-				t.ops = append(t.ops, &Op{Kind: opCallShared, Slot: s, Doc: rn(nd), Path: sp.Path, Cfg: sp.Cfg, Faults: drawFaults(sp.Path.UsesFuncs)})
+				t.ops = append(t.ops, &Op{Kind: opCallShared, Slot: s, Doc: rn(nd), Path: sp.Path, Cfg: sp.Cfg, Faults: drawFaults(sp.Path.UsesFuncs), Panics: drawPanics(sp.Path.UsesFuncs)})
 			} else {
 				cfg := genCfg(true)
 				di := rn(nd)
@@ -52,7 +52,7 @@ func runC04() *RunResult {
 				if chance(25) {
 					di = rn(nd)
 				}
-				t.ops = append(t.ops, &Op{Kind: opRetrieve, Path: p, Cfg: cfg, Doc: di, Faults: drawFaults(p.UsesFuncs)})
+				t.ops = append(t.ops, &Op{Kind: opRetrieve, Path: p, Cfg: cfg, Doc: di, Faults: drawFaults(p.UsesFuncs), Panics: drawPanics(p.UsesFuncs)})
 				cases = append(cases, fnv(p.Text+"|"+w.docs[0].Snap))
 			}
 		}
